@@ -8,7 +8,7 @@ use crate::{for_both, Ctx, Tier};
 use blsful::*;
 use serde_json::json;
 
-pub const RULE: &str = "n in {2,3,5,16,33} (quick) / every n in 2..=64 (thorough) x 3 schemes x 2 groups: n fresh keys, n distinct messages (lengths from the length classes), library aggregate. Checked: honest list in original order, reversed, rotated and 3 seeded shuffles must verify; single-position perturbations (message bit flip, key replaced, pair dropped, pair added, two messages swapped between different signers) at positions first/middle/last (quick) or every position for n<=16 and 8 sampled positions above (thorough) must fail; duplicate-message multisets (two signers / all signers share one message) with the algebraically valid aggregate must be rejected by Basic and accepted by Aug and PoP; the same (key, message) pair occurring twice (signature counted twice) in three arrangements must be accepted by Aug and PoP, and the aggregate lacking the second signature must be rejected; refusal matrix of from_signatures: 0 and 1 inputs, every mixed-scheme assignment for n<=3 at every position. Every decision is also taken by the reference CoreAggregateVerify (+ Basic's uniqueness rule) over the same bytes; expectation != reference is a harness error. Distinct by (suite, scheme, variant, list bytes, aggregate); non-trivial = all keys decode, aggregate not the identity, the multi-pairing decides.";
+pub const RULE: &str = "n in {2,3,5,16,33} (quick) / every n in 2..=64 (thorough) x 3 schemes x 2 groups: n fresh keys, n distinct messages (lengths from the length classes), library aggregate. Checked: honest list in original order, reversed, rotated and 3 seeded shuffles must verify; single-position perturbations (message bit flip, key replaced, pair dropped, pair added - with a fresh key, and with the identity key (pairing product unchanged) carrying a fresh / the shared message at first, middle, last position -, two messages swapped between different signers) at positions first/middle/last (quick) or every position for n<=16 and 8 sampled positions above (thorough) must fail; duplicate-message multisets (two signers / all signers share one message) with the algebraically valid aggregate must be rejected by Basic and accepted by Aug and PoP; the same (key, message) pair occurring twice (signature counted twice) in three arrangements must be accepted by Aug and PoP, and the aggregate lacking the second signature must be rejected; refusal matrix of from_signatures: 0 and 1 inputs, every mixed-scheme assignment for n<=3 at every position. Every decision is also taken by the reference CoreAggregateVerify (+ Basic's uniqueness rule) over the same bytes; expectation != reference is a harness error. Distinct by (suite, scheme, variant, list bytes, aggregate); non-trivial = all keys decode, aggregate not the identity, the multi-pairing decides.";
 
 pub fn run(ctx: &mut Ctx) {
     for_both!(run_suite, ctx);
@@ -168,6 +168,19 @@ fn one_list<C: Suite>(ctx: &mut Ctx, g: u64, scheme: Scheme, cnt: usize) {
         let d: Vec<(PublicKey<C>, Vec<u8>)> = pks.iter().copied().zip(m2.iter().cloned()).collect();
         let expect = scheme != Scheme::Basic;
         check::<C>(ctx, &format!("{n}/{sn}/{kind}"), scheme, kind, expect, &agg2, &d);
+        // a pair ADDED to that list whose key is the identity and whose message repeats the shared
+        // one: the pairing product is unchanged, only key validation can reject (all schemes)
+        for pos in [0, cnt / 2, cnt] {
+            let mut dx = d.clone();
+            dx.insert(pos, (PublicKey::<C>(pk_id::<C>()), msgs[0].clone()));
+            check::<C>(ctx, &format!("{n}/{sn}/pair-added"), scheme, &format!("{kind}/identity-key-pair-added@{pos}"), false, &agg2, &dx);
+        }
+    }
+    // the same with the honest (distinct-message) list and a fresh message
+    for pos in [0, cnt / 2, cnt] {
+        let mut dx = data.clone();
+        dx.insert(pos, (PublicKey::<C>(pk_id::<C>()), b"an added pair with the identity key".to_vec()));
+        check::<C>(ctx, &format!("{n}/{sn}/pair-added"), scheme, &format!("identity-key-pair-added@{pos}"), false, &agg, &dx);
     }
     // the SAME signer signs the SAME message twice: the pair occurs twice in the list and its
     // signature twice in the aggregate (valid in Aug/PoP in every arrangement, rejected by Basic);
